@@ -54,6 +54,8 @@ def gen(tier, rng, scale):
         recs = E.gen_history(crng, grammar=crng.chance(1, 2))
         c = {"items": recs, "layout": [crng.chance(1, 2), crng.chance(1, 2), crng.chance(1, 3), crng.chance(3, 4), crng.choice(["mixed", "mixed", "std"])]}
         if crng.chance(1, 3):
+            c["layout"].append(crng.choice([0, 1]))        # two events recorded together; the task records belong to the first or the second
+        if crng.chance(1, 3):
             c["shuffle"] = crng.next()
         if crng.chance(1, 4):
             c["flags"] = crng.choice([["--reuse-threads"], ["--fold-recursive-prefix"]])
